@@ -134,7 +134,7 @@ def handleSpell : List Sx → Sx
     match q.toNat?, Sx.mapM? decStyle sts, decCPs cps with
     | some q, some sts, some cps =>
       .list [.atom "ok", Sx.ofNats (spellBody sts cps),
-             Sx.ofBool (sts.length == cps.length && (List.zip sts cps).all (fun (st, c) => st.ok q c))]
+             Sx.ofBool (stylesOk q sts cps)]
     | _, _, _ => Sx.bad
   | _ => Sx.bad
 
